@@ -190,8 +190,17 @@ func Run(c *core.Ctx) int {
 		add(k.damageJobs())
 	}
 	// long sequential chains first (end-to-end sessions, process swarm, crash baselines)
+	// the last job of the first phase waits for the -race binary and runs the goroutine variants
+	jobs = append(jobs, k.timed(len(jobs), func() {
+		rj := k.raceJobs(<-raceBin)
+		var wg sync.WaitGroup
+		for _, j := range rj {
+			wg.Add(1)
+			go func(j func()) { defer wg.Done(); j() }(j)
+		}
+		wg.Wait()
+	}))
 	c.Parallel(len(jobs), func(i int) { jobs[i]() })
-	post = append(post, k.raceJobs(<-raceBin)...)
 	c.Parallel(len(post), func(i int) { post[i]() })
 
 	k.finishTransparency()
